@@ -161,3 +161,8 @@ func H_C14_rt_two() {
 	vAssert(vAnd(k2 == VRe, x2 == "'"+v2+"'"), "C14 roundtrip: second rule recovered in order")
 	vReach("end")
 }
+
+// thorough tier: longer texts
+func H_C14T_noloss_comma()   { vSplitNoLoss(',', 7) }
+func H_C14T_noloss_slash()   { vSplitNoLoss('/', 7) }
+func H_C14T_rt_key_val_msg() { vC14One(true, true, 3, 6) }
